@@ -72,8 +72,9 @@ def define():
              ("VecBytes", "TypedSlice"), ("IterMutDowncast", "ElemRef")]
     for i, (w, r) in enumerate(pairs):
         coh(w, r, "none", "heap" if i % 2 == 0 else "stack", "W8" if w in ("ElemMutBytes", "VecBytes") else "B3D")
-    H("c13_handlemut__none_heap_stack_B3D", "c12::handle_mutation_h::<dyn None, Heap, Stack<12>, B3D>(%s)" % P(3, "s3", "s3", 4, "s3", 0), ["C13"], unwind=unwind_for("B3D", 5),
-      dims=dict(L=3, elem="B3D", shape_symbolic=True), role="c13_handlemut")
+    for k, opn in enumerate(("swapremove", "remove", "pop")):
+        H("c13_handlemut_%s__none_heap_stack_B3D" % opn, "c12::handle_mutation_h::<dyn None, Heap, Stack<12>, B3D>(%s, %d)" % (P(3, "s3", "s3", 4, "s3", 0), k), ["C13"], unwind=unwind_for("B3D", 5),
+          dims=dict(L=3, elem="B3D", handle=opn, shape_symbolic=True), role="c13_handlemut")
     # C14 quick
     for i, w in enumerate(ITS):
         itp(w, "none", "heap" if i % 2 == 0 else "stack", "B3D" if i % 2 else "W8", L=3)
